@@ -29,6 +29,8 @@ def run(tier):
                 if tier == "quick" and c["cfg"]["ns"] < 3 and im == 1:
                     continue
                 cases.append({"cfg": c["cfg"], "run": {"mode": "meta", "neigh": nk, "model": im}})
+                if c["cfg"]["target"] == "point" and c["cfg"]["ndim"] >= 2 and c["cfg"]["drift"] != "SK" and im != 1:
+                    cases.append({"cfg": c["cfg"], "run": {"mode": "meta", "neigh": nk, "model": im, "tgrid": True}})
                 if c["cfg"]["target"] == "point" and not c["cfg"]["verr"]:
                     cases.append({"cfg": c["cfg"], "run": {"mode": "exact", "neigh": nk, "model": im}})
     obs = kc.run_cases(ck, cases, "c02")
